@@ -116,7 +116,11 @@ def gen_pair(tp: S.Tape, classes=("MG", "SMG", "CRG", "SCRG", "SMG", "SCRG"),
 
 
 def gen(data: bytes):
-    return gen_pair(S.Tape(data))
+    tp = S.Tape(data)
+    case = gen_pair(tp)
+    if tp.chance(128):
+        case["a"], case["b"] = case["b"], case["a"]
+    return case
 
 
 def invariants(m):
